@@ -113,7 +113,7 @@ func c05One(o *hx.Out, r *hx.Rng, name string, cfg [][3]string) error {
 }
 
 func genC05(o *hx.Out, r *hx.Rng, tier string, replay string) error {
-	o.Rule = "names over the alphabet {/ = - 7 a é 0 b . *}: exhaustive up to a length bound over a 6-symbol sub-alphabet, then random longer names; each with a random configuration and 4-7 projection/filter keys. non-trivial = name has at least one configuration part; distinct by name"
+	o.Rule = "names over the alphabet {/ = - 7 a é 0 b . *}: exhaustive up to a length bound over a 6-symbol sub-alphabet, then random longer names; each with a random configuration and 4-7 projection/filter keys. non-trivial = name has at least one configuration part; distinct by name; plus HISTORIES of 3-6 names of equal length (separators at different places, /k= moved or absent, -N suffix moving) seen in order by ONE long-lived single-field projection and ONE long-lived literal filter per key and one long-lived .fullname projection with exclusions: a Result whose Name bytes are overwritten in place (also re-sliced from one backing array, and fresh Results as control), and a benchfmt.Reader whose Result is used WITHOUT Clone (plain; with result lines longer than half the scanner buffer; and fed one line per Read with an ignored filler line, so that consecutive result lines land at the same scanner-buffer offset); same-address/same-length pairs are confirmed by pointer comparison and counted"
 	mkcfg := func() [][3]string {
 		var cfg [][3]string
 		n := r.Intn(4)
@@ -172,8 +172,14 @@ func genC05(o *hx.Out, r *hx.Rng, tier string, replay string) error {
 		}
 	}
 	nrand := 600
+	nhist := 900
 	if tier == "thorough" {
 		nrand = 6000
+		nhist = 18000
+	}
+	// histories: long-lived projections / filters over consecutive results at the same address
+	if err := c05GenHist(o, r, nhist); err != nil {
+		return err
 	}
 	pieces := []string{"/a=", "/b=", "/gomaxprocs=", "-", "-8", "-16", "/", "Fib", "/a", "=", "7", "é", "/7=", "/ab=", "x", "*",
 		"/a=1", "/a=2", "/a=", "/b=x", "/gomaxprocs=2", "/gomaxprocs=4", "//", "/a=1/a=2", "/b=/b=y",
